@@ -18,7 +18,7 @@ def gen_field(rng, nd=None):
     cell = [F(rng.choice([1, 3, 5]), 2 ** rng.randint(0, 4)) for _ in range(nd)]   # anisotropic, dyadic
     p1 = [F(rng.randint(-40, 40), 4) for _ in range(nd)]
     vals = [F(rng.randint(-50, 50), rng.choice([1, 1, 2, 4])) for _ in range(math.prod(sh) * nvdim)]
-    names = rng.sample(["x", "y", "z", "a", "b", "r", "t", "q"], nd) if (rng.random() < 0.5 or nd > 3) else None
+    names = rng.sample(["x", "y", "z", "a", "b", "r", "t", "q", "V", "S", "n", "k"], nd) if (rng.random() < 0.5 or nd > 3) else None
     dtype = rng.choice(["float", "float", "int", "none"])
     if dtype == "int":
         vals = [F(int(v)) for v in vals]
@@ -74,6 +74,9 @@ def generate(rng, tier):
             k = rng.randint(2, nd)
             cases.append(dict(kind="mean_multi", field=f, axes=rng.sample(range(nd), k)))
         cases.append(dict(kind="invariance", field=f, shift=[g.qs(F(rng.randint(-64, 64), 2)) for _ in range(nd)]))
+        if rng.random() < 0.5:
+            cases.append(dict(kind="complex", field=f, ax=rng.randrange(nd),
+                              axes=(rng.sample(range(nd), rng.randint(2, nd)) if nd >= 2 else None)))
     return cases
 
 
@@ -211,6 +214,31 @@ def run_case(c):
         comb = 2 * f - 3 * g2
         if exact(comb.integrate()) != [2 * a - 3 * b for a, b in zip(exact(f.integrate()), exact(g2.integrate()))]:
             rec["oracle"].append("linearity")
+    elif kind == "complex":
+        # complex-valued field z = re + i*im: every integral / mean must act on the two parts separately
+        vals = [F(x) for x in fc["vals"]]
+        im = list(reversed(vals))
+        fre = build(dict(fc, dtype="float", pre=None))
+        fim = build(dict(fc, dtype="float", pre=None, vals=[g.qs(x) for x in im]))
+        z = np.array([complex(float(a), float(b)) for a, b in zip(vals, im)]).reshape(*sh, nvdim)
+        fz = df.Field(fre.mesh, nvdim=nvdim, value=z, dtype=complex, valid=fre.valid)
+        ax = c["ax"]
+
+        def arr_of(r):
+            return np.asarray(r if isinstance(r, np.ndarray) else r.array)
+        ops = {"integrate": lambda h: h.integrate(), "integrate-dir": lambda h: h.integrate(dims[ax]),
+               "integrate-cum": lambda h: h.integrate(dims[ax], cumulative=True),
+               "mean": lambda h: h.mean(), "mean-dir": lambda h: h.mean(dims[ax])}
+        if c.get("axes"):
+            names = [dims[a] for a in c["axes"]]
+            ops["mean-multi"] = lambda h: h.mean(names if len(names) < nd else tuple(names))
+        obs = {}
+        for name, op in ops.items():
+            rz, rr, ri = arr_of(op(fz)), arr_of(op(fre)), arr_of(op(fim))
+            obs[name] = js(np.asarray(rz).reshape(-1)[:4])
+            tol = 0.0 if name.startswith("integrate") else 1e-12 * float(scale)
+            if rz.shape != rr.shape or np.max(np.abs(rz.real - rr), initial=0) > tol or np.max(np.abs(rz.imag - ri), initial=0) > tol:
+                rec["oracle"].append(f"complex-parts-{name}")
     else:
         raise ValueError(kind)
     rec["oracle"] = sorted(set(rec["oracle"]))
